@@ -11,8 +11,10 @@
   `ctls_exact_partial` is the full exactness statement under one extra, *decidable* hypothesis `CTLS.namesOK K f`:
   on this run no generated atom name coincided with an atom of f or a label of K, and a name generated twice was
   generated for the same set of states.  The driver evaluates `namesOK` on every correspondence case (it has never
-  been false); discharging it from "atoms and labels are identifier-style names" needs print injectivity (C09) and is
-  tracked in DESIGN.md.
+  been false).  The hypothesis is DISCHARGED from "atoms and labels are identifier-style names, n-ary and/or have at
+  least two operands" in PMC/Properties/C03Full.lean (`namesOK_of_wf`, `ctls_exact`; via print injectivity,
+  PMC/Proofs/PrintBracket.lean, CTLSNames.lean); `ctls_exact_partial` remains the form to use for other names, with
+  `namesOK` checked at run time.
 -/
 import PMC.Proofs.CTLSExact
 namespace PMC.C03
